@@ -304,3 +304,68 @@ def h_detect_tail(H):
         it.ctx.oblige("detect.last_channel_outside", z3.Implies(z3.And(low(nc - 1), z3.Not(dead(nc - 1)), z3.Not(noisy(nc - 1))), lab.read((nc - 1,)) == 3), "post", "a low-coherence last channel that is neither dead nor noisy is outside-brain", assume=False)
         it.ctx.oblige("detect.label_values", A.forall([c], lambda: z3.Implies(inr, z3.Or(*[lab.read((c,)) == v for v in (0, 1, 2, 3)]))), "post", assume=False)
     S.explore(body)
+
+
+# ----------------------------------------------------------------------------- detect_bad_channels_cbin: labels of a file = mode over its batches
+@harness(PROPERTY, "cbin_mode_over_batches", functions=["ibldsp.voltage:detect_bad_channels_cbin"],
+         clause="labels computed from a file are the per-channel mode over its batches")
+def h_cbin_mode(H):
+    import scipy.stats
+    S = H.session("cbin_mode")
+    FD = V.detect_bad_channels_cbin
+
+    def body(it):
+        nc, ns = z3.Ints("nc nsamples")
+        fs, rl = z3.Reals("fs rl")
+        nb = 10
+        it.ctx.assume(z3.And(nc >= 1, fs > 0, rl > 1, ns >= 1))
+        calls, modes = [], []
+
+        class FakeReader:
+            _pyvc_ok = True
+            nsync = 1
+            def __getitem__(self_, idx):   # noqa
+                sl, cs = idx
+                calls.append({"slice": sl, "csel": cs})
+                n = term(sl.stop) - term(sl.start)
+                return A.fresh_array("raw_batch", "float32", (A.dim(n), nc))
+        sr = FakeReader()
+        sr.nc, sr.fs, sr.rl = SV(nc + 1), SV(fs), SV(rl)
+
+        def detect(it_, args, kw):
+            raw = A.as_sarr(args[0])
+            lab = A.fresh_array("batch_labels", "float64", (nc,))
+            calls[-1].update({"detect_in_shape": raw.shape, "labels": lab, "fs": kw.get("fs", args[1] if len(args) > 1 else None)})
+            return (lab, {"feat": A.fresh_array("feat", "float64", (nc,))})
+
+        def mode(it_, args, kw):
+            xx = A.as_sarr(args[0])
+            modes.append({"in": xx.snapshot(), "shape": xx.shape, "axis": kw.get("axis", args[1] if len(args) > 1 else 0)})
+            return (A.fresh_array("mode", "float64", (xx.shape[0],)), A.fresh_array("count", "float64", (xx.shape[0],)))
+        it.session.contracts[V.detect_bad_channels] = detect
+        it.session.contracts[scipy.stats.mode] = mode
+        it.session.contracts[isinstance] = lambda it_, a, k: True if a[0] is sr else NotImplemented
+        out = run_function(it, FD, [sr], {"n_batches": nb})
+        it.ctx.oblige("cbin.one_detection_per_batch", z3.BoolVal(len(calls) == nb and all("labels" in c for c in calls)), "post")
+        if not modes:
+            other = [r for r in getattr(it.ctx, "reduce_log", []) if r["name"] in ("median", "mean") and len(r["in_shape"]) == 2 and r["axis"] in (1, -1)]
+            if other:
+                it.ctx.oblige("cbin.mode_over_batches", z3.BoolVal(False), "post", f"the labels are aggregated across batches with a {other[0]['name']}, which is the mode only when one label has a strict majority")
+                return
+            raise I.Unsupported("cannot identify how the labels of the batches are aggregated (no scipy.stats.mode call)")
+        it.ctx.oblige("cbin.mode_over_batches", z3.BoolVal(len(modes) == 1 and modes[0]["axis"] in (1, -1) and len(modes[0]["shape"]) == 2), "post", "the labels of the file are a mode taken across batches (axis 1 of the channels x batches table)")
+        if len(modes) == 1 and len(calls) == nb and all("labels" in c for c in calls):
+            tab, shape = modes[0]["in"], modes[0]["shape"]
+            c = z3.Int("c")
+            it.ctx.oblige("cbin.table_shape", z3.And(A.T(shape[0]) == nc, A.T(shape[1]) == nb), "post")
+            for b, cl in enumerate(calls):
+                it.ctx.oblige(f"cbin.table_column.{b}", A.forall([c], lambda: z3.Implies(z3.And(c >= 0, c < nc), tab((c, z3.IntVal(b))) == cl["labels"].read((c,)))), "post",
+                              "column b of the table holds the labels detected on batch b", assume=False)
+            it.ctx.oblige("cbin.returns_the_mode", z3.BoolVal(isinstance(out, SArr) and out.ndim == 1), "post")
+            # batches are evenly spaced over the recording and of the requested duration
+            t0s = [term(cl["slice"].start) for cl in calls]
+            it.ctx.oblige("cbin.first_batch_at_start", t0s[0] == 0, "post", assume=False)
+            it.ctx.oblige("cbin.batches_in_order", z3.And(*[t0s[b] <= t0s[b + 1] for b in range(nb - 1)]), "post", assume=False)
+            it.ctx.oblige("cbin.excludes_sync_channels", z3.BoolVal(all(isinstance(cl["csel"], slice) and cl["csel"].start is None for cl in calls)) if True else True, "post")
+            it.ctx.oblige("cbin.channels_are_the_non_sync_ones", z3.And(*[term(cl["csel"].stop) == nc for cl in calls]), "post", assume=False)
+    S.explore(body)
